@@ -64,6 +64,22 @@ def tasks(ctx, quick):
             else:
                 ws = sorted(rng.sample(WAVELENGTHS, rng.randint(1, 6)))
             add(dict(base, rel="vector", vector=ws, index=rng.randrange(len(ws))))
+    # k * Formula keeps the material; '+' and blank between groups spell the same compound
+    eb = __import__("ptv.rawtables", fromlist=["x"]).element_base()
+    for i in range(60 if quick else 600):
+        comp = gen.compound(nmin=2, nmax=4)
+        base = {"kind": "rel", "compound": ["dict", comp], "density": rng.choice([0.5, 1.0, 2.2, 7.87]),
+                "wavelength": rng.choice(WAVELENGTHS)}
+        if i % 2 == 0:
+            add(dict(base, rel="cellmul", k=rng.choice([2, 3, 0.5, 10, 1e-3, 7.25])))
+        elif not any(x[0] == 0 for x in comp):
+            def txt(x):
+                z, a, q, c = x
+                s_ = eb[z][1] + ("[%d]" % a if a else "") + (("{%s%s}" % (abs(q) if abs(q) > 1 else "", "+" if q > 0 else "-")) if q else "")
+                return s_ + ("%g" % c if c != 1 else "")
+            g1, g2 = "".join(txt(x) for x in comp[:1]), "".join(txt(x) for x in comp[1:])
+            k = rng.choice([2, 3, 5])
+            add(dict(base, rel="respell", texts=["%d%s %s" % (k, g1, g2), "%d%s+%s" % (k, g1, g2)]))
     grid = [10 ** (k / 4.0) for k in range(-8, 21)]
     for E in grid + [rng.uniform(0.03, 30000) for _ in range(40)]:
         add({"kind": "conv", "E": E, "lam": rng.choice([0.05, 50.0, rng.uniform(0.05, 50)]), "v": rng.choice([2200.0, 100.0, rng.uniform(50, 80000)])})
